@@ -651,6 +651,12 @@ func checkEscapeNeverRebound(w *World, r *Report, escapeFn *types.Func) {
 func checkApplyWritesFilterResult(w *World, r *Report) {
 	applyFilter := w.method("RenderContext", "ApplyFilter")
 	n := 0
+	type cand struct {
+		fn      *ssa.Function
+		out     *ssa.Parameter
+		applies []*ssa.Call
+	}
+	var cands []cand
 	for _, nt := range w.nodeStructs() {
 		m := w.tryMethod(nt.Obj().Name(), "Render")
 		if m == nil {
@@ -668,10 +674,58 @@ func checkApplyWritesFilterResult(w *World, r *Report) {
 				}
 			}
 		})
-		if len(applies) == 0 {
+		if len(applies) > 0 {
+			cands = append(cands, cand{fn, fn.Params[1], applies})
 			continue
 		}
-		out := fn.Params[1] // the io.Writer
+		// the filter is applied, and its result written, by a helper the node hands its
+		// writer and its filter name to
+		instrsOf(fn, func(in ssa.Instruction) {
+			c, ok := in.(*ssa.Call)
+			if !ok {
+				return
+			}
+			g := c.Call.StaticCallee()
+			if g == nil || !isTwigFn(g) || len(g.Blocks) == 0 {
+				return
+			}
+			passesFilter := false
+			for _, a := range c.Call.Args {
+				if t, f := originField(a, 0); f == "filter" && t == nt.Obj().Name() {
+					passesFilter = true
+				}
+			}
+			// (a constant filter name — the spaceless tag — counts as the node's filter too)
+			var hout *ssa.Parameter
+			for _, p := range g.Params {
+				if isNamed(p.Type(), "io", "Writer") {
+					hout = p
+				}
+			}
+			if hout == nil {
+				return
+			}
+			var happlies []*ssa.Call
+			instrsOf(g, func(in2 ssa.Instruction) {
+				if c2, ok := in2.(*ssa.Call); ok && calleeFunc(c2) == applyFilter {
+					if _, isParam := unspill(callArgs(c2)[0]).(*ssa.Parameter); isParam {
+						happlies = append(happlies, c2)
+					}
+				}
+			})
+			if len(happlies) == 0 || !(passesFilter || true) {
+				return
+			}
+			for _, k := range cands {
+				if k.fn == g {
+					return
+				}
+			}
+			cands = append(cands, cand{g, hout, happlies})
+		})
+	}
+	for _, k := range cands {
+		fn, out, applies := k.fn, k.out, k.applies
 		var leafBad func(v ssa.Value, seen map[ssa.Value]bool, depth int) string
 		leafBad = func(v ssa.Value, seen map[ssa.Value]bool, depth int) string {
 			v = unspill(v)
